@@ -104,7 +104,8 @@ def cmpOp {α : Type} [Cmp α] [Codec α] (op : String) (args : List String) : O
         | .twoSided _ _ => .twoSided lo hi
         | .upper _ => .upper lo
         | .lower _ => .lower hi
-      pure [hexOfString (shown.display id)]
+      -- format flags given for the interval itself do not reach the bounds: the rendering is the plain one
+      pure [hexOfString (shown.display id), encBool true]
   | _ => none
 
 def extOp {α : Type} [NumOps α] [Extremes α] [Codec α] (op : String) (args : List String) :
@@ -176,15 +177,18 @@ def approxOp (op : String) (args : List String) : Option (List String) :=
   | "absdiff" => do
       let (i, r) ← pInterval (α := Float) args; let (j, r) ← pInterval (α := Float) r
       let (eps, _) ← pF64 r
-      pure [encBool (Interval.approxEq (fun a b => absDiffEq a b eps) i j)]
+      let e := Interval.approxEq (fun a b => absDiffEq a b eps) i j
+      pure [encBool e, encBool (!e)]
   | "releq" => do
       let (i, r) ← pInterval (α := Float) args; let (j, r) ← pInterval (α := Float) r
       let (eps, r) ← pF64 r; let (mr, _) ← pF64 r
-      pure [encBool (Interval.approxEq (fun a b => relativeEq a b eps mr) i j)]
+      let e := Interval.approxEq (fun a b => relativeEq a b eps mr) i j
+      pure [encBool e, encBool (!e)]
   | "ulps" => do
       let (i, r) ← pInterval (α := Float) args; let (j, r) ← pInterval (α := Float) r
       let (eps, r) ← pF64 r; let (mu, _) ← pNat r
-      pure [encBool (Interval.approxEq (fun a b => ulpsEq a b eps mu) i j)]
+      let e := Interval.approxEq (fun a b => ulpsEq a b eps mu) i j
+      pure [encBool e, encBool (!e)]
   | _ => none
 
 /-- `u8` for the unsigned accessors: `MIN = 0`, `MAX = 255`, subtraction never underflows on WF input -/
